@@ -986,7 +986,8 @@ NATIVE_EXPRS = [
 
 
 # texts that the host's readers turn into numbers the language has no literal for: no such value may come out
-NATIVE_ODD = ["parse_json('[NaN]')[0]", "parse_json('[Infinity]')[0]", "parse_json('[-Infinity]')[0]", "parse_json('1e999')",
+NATIVE_ODD = ["parse_json('[null]')[0]", "parse_json('null')", "parse_json('{\"a\": null}')['a']", "parse_json('[true, false]')[0]",
+              "parse_json('[NaN]')[0]", "parse_json('[Infinity]')[0]", "parse_json('[-Infinity]')[0]", "parse_json('1e999')",
               "parse_json('[1e400, 1]')[0]", "decimal('nan')", "decimal('inf')", "decimal('1e999')", "decimal('-infinity')",
               # arithmetic that leaves the range of a decimal, and what the host makes of the difference of two such results
               "1" + "0" * 308 + ".0 * 10.0", "(1" + "0" * 308 + ".0 * 10.0) - (1" + "0" * 308 + ".0 * 10.0)",
@@ -1009,7 +1010,12 @@ def native_pairs(cx, events, meta):
             continue
         # whatever a native hands out is a value: equal to itself, found in a list and a set that hold it
         r = im.run(f"do def v_ = {src}; [v_ == v_, v_ in [v_], v_ in <<v_>>, length(<<v_, v_>>)] end")
-        if r[0] != "val" or str(r[1]) != "[TRUE, TRUE, TRUE, 1]":
+        if r[0] == "val" and str(r[1]) == "[TRUE, TRUE, TRUE, 1]":
+            # ... and symmetric towards the constants of its kind
+            r2 = im.run(f"do def v_ = {src}; [(v_ == NULL) == (NULL == v_), (v_ == TRUE) == (TRUE == v_), length(<<NULL, v_>>) == length(<<v_, NULL>>)] end")
+            if r2[0] == "val" and str(r2[1]) != "[TRUE, TRUE, TRUE]":
+                r = r2
+        if r[0] != "val" or str(r[1]) not in ("[TRUE, TRUE, TRUE, 1]", "[TRUE, TRUE, TRUE]"):
             cx.run.violation("made-reflexive:" + src,
                              f"reflexivity: the value of {src} ({str(o[1])[:40]}) answers [v == v, v in [v], v in <<v>>, length(<<v, v>>)] "
                              f"with {str(r[1])[:60] if r[0] == 'val' else r[:2]}", {"kind": "made", "src": src})
